@@ -1,77 +1,175 @@
 /-
 C03 — Realtime safety: the message path never allocates and never locks.
 
-The model is GENERATED: `RtoscModel/CallGraph/Generated.lean` is the call graph that
-`tools/callgraph.py` extracts on every run from the LLVM IR of the working tree's realtime-path
-sources (rtosc.c, dispatch.c, ports.cpp, thread-link.cpp, …) linked with `harness/rt_entries.cpp`
-(every callback macro of port-sugar.h instantiated on a sample object + the realtime entry
-points).  The theorems below are re-checked by the kernel on that data on every run; the
-generic induction is in `RtoscModel/CallGraph/Reach.lean`.
+The model is GENERATED, once per build configuration: `tools/callgraph.py` extracts on every run the call graph
+of the working tree's realtime-path sources (rtosc.c, dispatch.c, ports.cpp, thread-link.cpp, … and whatever
+they need from the other translation units) linked with `harness/rt_entries.cpp` (every callback macro of
+port-sugar.h instantiated on a sample object + the realtime entry points) from LLVM IR built
 
-Stated preconditions (edges listed in `Gen.excludedEdges`): no empty `std::function` is ever
-invoked (`std::__throw_bad_function_call`), assertions are compiled out (NDEBUG), no exception
-unwinds (landing pads are dead because everything that could throw is in the forbidden set).
-Assumption: the external leaves in `Gen.whitelist` neither allocate nor lock.
+* `Gen`   (`CallGraph/Generated.lean`)   at the lowest language level the headers support (-std=c++11, -O1), and
+* `Gen17` (`CallGraph/Generated17.lean`) the way CMakeLists.txt builds the library (-std=gnu++17 / -std=c99, -O3).
+
+The theorems below are re-checked by the kernel on that data on every run; the generic induction and the
+statement `Graph.Safe` are in `RtoscModel/CallGraph/Reach.lean`.  `Graph.Safe` quantifies over an arbitrary
+"calls" relation of executions and has two explicit hypotheses: the extracted graph over-approximates the calls
+that can happen (trusted: extractor, clang), and the edges listed in `excludedEdges` are never executed (stated
+preconditions: no empty `std::function` is invoked — the dynamic engine checks this for every table built with
+the library's macros —, assertions are compiled out (NDEBUG), no exception unwinds).
+Assumption: the external leaves in `whitelist` neither allocate nor lock.
+What ties the node numbers to symbols: `api_entries_pinned` (every public realtime API function is an entry of
+the graph) and `forbidden_names_pinned` (every node that carries the name of an allocator / deallocator / lock /
+exception primitive, and each pseudo node, is in the forbidden set).
 -/
 import RtoscModel.CallGraph.Reach
 import RtoscModel.CallGraph.Generated
+import RtoscModel.CallGraph.Generated17
 
 namespace Rtosc.CallGraph
-open Gen
 
-/-- the edge list of the generated call graph -/
-def edges : List Edge := edgeChunks.flatten
+/-- The public realtime API of the property statement (building, measuring, reading messages and bundles,
+matching, dispatch, default reply/broadcast forwarding, ThreadLink write/read/hasNext), by mangled name.
+Every one of them must be a node of each generated graph AND an entry. -/
+def requiredEntries : List String := [
+  "rtosc_message", "rtosc_vmessage", "rtosc_amessage", "rtosc_message_length",
+  "rtosc_message_ring_length", "rtosc_valid_message_p", "rtosc_argument_string",
+  "rtosc_narguments", "rtosc_type", "rtosc_argument", "rtosc_itr_begin", "rtosc_itr_next",
+  "rtosc_itr_end", "rtosc_bundle", "rtosc_bundle_elements", "rtosc_bundle_fetch",
+  "rtosc_bundle_size", "rtosc_bundle_p", "rtosc_bundle_timetag", "rtosc_match",
+  "rtosc_match_path", "rtosc_match_options",
+  "_ZNK5rtosc5Ports8dispatchEPKcRNS_6RtDataEb",
+  "_ZN5rtosc6RtData5replyEPKcS2_z", "_ZN5rtosc6RtData5replyEPKc",
+  "_ZN5rtosc6RtData9broadcastEPKcS2_z", "_ZN5rtosc6RtData9broadcastEPKc",
+  "_ZN5rtosc10ThreadLink5writeEPKcS2_z", "_ZN5rtosc10ThreadLink10writeArrayEPKcS2_PK11rtosc_arg_t",
+  "_ZN5rtosc10ThreadLink9raw_writeEPKc", "_ZNK5rtosc10ThreadLink7hasNextEb",
+  "_ZNK5rtosc10ThreadLink7hasNextEv", "_ZNK5rtosc10ThreadLink16hasNextLookaheadEv",
+  "_ZN5rtosc10ThreadLink4readEb", "_ZN5rtosc10ThreadLink4readEv",
+  "_ZN5rtosc10ThreadLink14read_lookaheadEv", "_ZNK5rtosc10ThreadLink4peakEv"]
+
+/-- pseudo nodes of the extractor: always present, always forbidden -/
+def pseudoNodes : List String := [
+  "<indirect call with no address-taken candidate>", "<inline asm>", "<call the extractor could not parse>",
+  "<atomic read-modify-write instruction>"]
+
+/-- names of the `observe_at` clause (allocator, deallocator, operator new/delete, pthread mutex) and of the
+exception primitives: a node carrying one of these names must be in the forbidden set -/
+def forbiddenNames : List String := pseudoNodes ++ [
+  "malloc", "calloc", "realloc", "free", "posix_memalign", "aligned_alloc", "memalign", "valloc", "strdup",
+  "_Znwm", "_Znam", "_ZnwmRKSt9nothrow_t", "_ZnamRKSt9nothrow_t", "_ZnwmSt11align_val_t",
+  "_ZdlPv", "_ZdaPv", "_ZdlPvm", "_ZdaPvm", "_ZdlPvSt11align_val_t",
+  "pthread_mutex_lock", "pthread_mutex_trylock", "pthread_mutex_timedlock", "pthread_mutex_unlock",
+  "pthread_rwlock_rdlock", "pthread_rwlock_wrlock", "pthread_cond_wait", "pthread_spin_lock",
+  "_ZNSt5mutex4lockEv", "__cxa_guard_acquire",
+  "__cxa_allocate_exception", "__cxa_throw", "_ZSt25__throw_bad_function_callv", "_ZSt17__throw_bad_allocv",
+  "_ZSt20__throw_length_errorPKc", "_ZSt20__throw_out_of_rangePKc", "_ZSt24__throw_out_of_range_fmtPKcz"]
+
+/-! ## configuration `min` (c++11, -O1): `Gen.graph` -/
 
 /-- Obligation 1: the certificate is closed under every call edge of the generated graph. -/
-theorem cert_closed : Closed cert edges :=
+theorem min_cert_closed : Closed Gen.graph.cert Gen.graph.edges :=
   closedChunksB_sound (by decide +kernel)
 
 /-- Obligation 2: the certificate contains every realtime entry point. -/
-theorem cert_contains_entries : ContainsAll cert entries :=
+theorem min_cert_contains_entries : ContainsAll Gen.graph.cert Gen.graph.entries :=
   containsAllB_sound (by decide +kernel)
 
-/-- Obligation 3: the certificate contains no allocator, deallocator, lock, exception-allocation
-or stream function, and none of the pseudo nodes standing for calls the extractor could not
-resolve. -/
-theorem cert_avoids_forbidden : Avoids cert forbidden :=
+/-- Obligation 3: the certificate contains no allocator, deallocator, lock, exception-allocation or stream
+function, none of the pseudo nodes standing for calls the extractor could not resolve, and not the pseudo node
+that every function containing an atomic read-modify-write instruction has an edge to. -/
+theorem min_cert_avoids_forbidden : Avoids Gen.graph.cert Gen.graph.forbidden :=
   avoidsB_sound (by decide +kernel)
 
-/-- Obligation 4: every function without a body that the certificate contains is on the explicit
-whitelist of leaves assumed not to allocate or lock (an unknown external fails here). -/
-theorem cert_externals_whitelisted : OnlyListed cert externals whitelist :=
+/-- Obligation 4: every function without a body that the certificate contains is on the explicit whitelist of
+leaves assumed not to allocate or lock (an unknown external fails here). -/
+theorem min_cert_externals_whitelisted : OnlyListed Gen.graph.cert Gen.graph.externals Gen.graph.whitelist :=
   onlyListedB_sound (by decide +kernel)
 
 /-- Obligation 5: whitelist and forbidden set are disjoint. -/
-theorem whitelist_not_forbidden : ∀ n ∈ whitelist, n ∉ forbidden := by decide +kernel
+theorem min_whitelist_not_forbidden : ∀ n ∈ Gen.graph.whitelist, n ∉ Gen.graph.forbidden := by decide +kernel
 
-/-- **C03**: no call path of any length from a realtime entry point (building, measuring and
-reading messages and bundles, matching, `Ports::dispatch` with and without location tracking into
-every sugar callback, default `RtData::reply/broadcast` forwarding, `ThreadLink`
-write/read/hasNext) reaches a function that allocates, frees or locks; and every function
-without a body that such a path reaches is a whitelisted leaf. -/
-theorem rt_path_never_allocates_or_locks :
-    ∀ e ∈ entries, ∀ n, Reach edges e n → n ∉ forbidden ∧ (n ∈ externals → n ∈ whitelist) := by
-  intro e he n hr
-  have hin : inMask cert n := closed_contains_reachable cert_contains_entries cert_closed e he n hr
-  exact ⟨fun hf => cert_avoids_forbidden n hf hin, fun hx => cert_externals_whitelisted n hx hin⟩
+/-- Obligation 6: every function of the public realtime API is a node of the graph and an entry. -/
+theorem min_api_entries_pinned : ∀ s ∈ requiredEntries, ∃ i, Gen.graph.nodeNames[i]? = some s ∧ i ∈ Gen.graph.entries :=
+  namedAllInB_sound (by decide +kernel)
+
+/-- Obligation 7: the pseudo nodes exist and are forbidden, and every node that carries the name of an allocator,
+deallocator, mutex or exception primitive is in the forbidden set. -/
+theorem min_forbidden_names_pinned :
+    (∀ s ∈ pseudoNodes, ∃ i, Gen.graph.nodeNames[i]? = some s ∧ i ∈ Gen.graph.forbidden) ∧
+    (∀ i s, Gen.graph.nodeNames[i]? = some s → s ∈ forbiddenNames → i ∈ Gen.graph.forbidden) :=
+  ⟨namedAllInB_sound (by decide +kernel), namedOnlyInB_sound (by decide +kernel)⟩
+
+theorem min_safe : Gen.graph.Safe :=
+  Gen.graph.safe_of_cert ⟨min_cert_contains_entries, min_cert_closed, min_cert_avoids_forbidden, min_cert_externals_whitelisted⟩
+
+/-! ## configuration `shipped` (as CMakeLists.txt builds the library): `Gen17.graph` -/
+
+theorem shipped_cert_closed : Closed Gen17.graph.cert Gen17.graph.edges :=
+  closedChunksB_sound (by decide +kernel)
+
+theorem shipped_cert_contains_entries : ContainsAll Gen17.graph.cert Gen17.graph.entries :=
+  containsAllB_sound (by decide +kernel)
+
+theorem shipped_cert_avoids_forbidden : Avoids Gen17.graph.cert Gen17.graph.forbidden :=
+  avoidsB_sound (by decide +kernel)
+
+theorem shipped_cert_externals_whitelisted : OnlyListed Gen17.graph.cert Gen17.graph.externals Gen17.graph.whitelist :=
+  onlyListedB_sound (by decide +kernel)
+
+theorem shipped_whitelist_not_forbidden : ∀ n ∈ Gen17.graph.whitelist, n ∉ Gen17.graph.forbidden := by decide +kernel
+
+theorem shipped_api_entries_pinned :
+    ∀ s ∈ requiredEntries, ∃ i, Gen17.graph.nodeNames[i]? = some s ∧ i ∈ Gen17.graph.entries :=
+  namedAllInB_sound (by decide +kernel)
+
+theorem shipped_forbidden_names_pinned :
+    (∀ s ∈ pseudoNodes, ∃ i, Gen17.graph.nodeNames[i]? = some s ∧ i ∈ Gen17.graph.forbidden) ∧
+    (∀ i s, Gen17.graph.nodeNames[i]? = some s → s ∈ forbiddenNames → i ∈ Gen17.graph.forbidden) :=
+  ⟨namedAllInB_sound (by decide +kernel), namedOnlyInB_sound (by decide +kernel)⟩
+
+theorem shipped_safe : Gen17.graph.Safe :=
+  Gen17.graph.safe_of_cert ⟨shipped_cert_contains_entries, shipped_cert_closed, shipped_cert_avoids_forbidden,
+    shipped_cert_externals_whitelisted⟩
+
+/-- **C03** (over the regenerated call graphs of both configurations; see `Graph.Safe` for the two explicit
+hypotheses): no call path of any length from a realtime entry point (building, measuring and reading messages
+and bundles, matching, `Ports::dispatch` with and without location tracking into every sugar callback, default
+`RtData::reply/broadcast` forwarding, `ThreadLink` write/read/hasNext) reaches a function that allocates, frees,
+locks or contains an atomic read-modify-write instruction; and every function without a body that such a path
+reaches is a whitelisted leaf. -/
+theorem rt_path_never_allocates_or_locks : Gen.graph.Safe ∧ Gen17.graph.Safe :=
+  ⟨min_safe, shipped_safe⟩
 
 /-! ### non-vacuity -/
 
-/-- there are entries and forbidden functions -/
-example : entries ≠ [] ∧ forbidden ≠ [] := by decide +kernel
+/-- the hypotheses of `Graph.Safe` are satisfiable: the graph's own edge relation is a `Calls` relation that
+fulfils both of them, so the conclusion holds for every path of the graph itself -/
+example : ∀ e ∈ Gen17.graph.entries, ∀ n, ReachR (fun a b => (a, b) ∈ Gen17.graph.edges) e n →
+    n ∉ Gen17.graph.forbidden :=
+  fun e he n hr => (shipped_safe (fun a b => (a, b) ∈ Gen17.graph.edges) (fun _ _ h => Or.inl h)
+    (fun _ _ _ hne hc => hne hc) e he n hr).1
 
-/-- the graph does contain calls into forbidden functions (construction-time code such as
-`Ports::refreshMagic` and the `ThreadLink` constructor): the check is not about a graph from
-which the allocator has been left out -/
-example : (edges.any fun p => forbidden.contains p.2) = true := by decide +kernel
+/-- there are entries, forbidden functions and excluded edges -/
+example : Gen.graph.entries ≠ [] ∧ Gen.graph.forbidden ≠ [] ∧ Gen.graph.excludedEdges ≠ [] ∧
+    Gen17.graph.entries ≠ [] ∧ Gen17.graph.forbidden ≠ [] ∧ Gen17.graph.excludedEdges ≠ [] := by decide +kernel
 
-/-- the certificate is not everything: some defined function lies outside of it -/
-example : ((List.range numNodes).any fun n => !cert.testBit n && !externals.contains n) = true := by
+/-- the graphs do contain calls into forbidden functions (construction-time code such as `Ports::refreshMagic`
+and the `ThreadLink` constructor): the check is not about a graph from which the allocator has been left out -/
+example : (Gen.graph.edges.any fun p => Gen.graph.forbidden.contains p.2) = true ∧
+    (Gen17.graph.edges.any fun p => Gen17.graph.forbidden.contains p.2) = true := by decide +kernel
+
+/-- the allocator really is a node of both graphs (so `…_forbidden_names_pinned` is not about absent names) -/
+example : (["_Znwm", "_ZdlPv"].all fun s => Gen.graph.nodeNames.contains s) = true ∧
+    (["_Znwm"].all fun s => Gen17.graph.nodeNames.contains s) = true := by decide +kernel
+
+/-- the certificates are not everything: some defined function lies outside of them -/
+example : ((List.range Gen.graph.numNodes).any fun n => !Gen.graph.cert.testBit n && !Gen.graph.externals.contains n) = true ∧
+    ((List.range Gen17.graph.numNodes).any fun n => !Gen17.graph.cert.testBit n && !Gen17.graph.externals.contains n) = true := by
   decide +kernel
 
-/-- the sample path emitted by the translator is a real call path from an entry, several
-edges long, and its end point is therefore covered by the theorem -/
-example : isPathB edges samplePath = true ∧ samplePath.length ≥ 4 ∧
-    (samplePath.head?.any fun a => entries.contains a) = true := by decide +kernel
+/-- the sample paths emitted by the translator are real call paths from an entry, several edges long, and
+their end points are therefore covered by the theorem -/
+example : isPathB Gen.graph.edges Gen.graph.samplePath = true ∧ Gen.graph.samplePath.length ≥ 4 ∧
+    (Gen.graph.samplePath.head?.any fun a => Gen.graph.entries.contains a) = true ∧
+    isPathB Gen17.graph.edges Gen17.graph.samplePath = true ∧ Gen17.graph.samplePath.length ≥ 3 ∧
+    (Gen17.graph.samplePath.head?.any fun a => Gen17.graph.entries.contains a) = true := by decide +kernel
 
 end Rtosc.CallGraph
